@@ -307,6 +307,17 @@ def check_malformed(ctx, case):
         f = _parse(case['text'], T, route)
     except Exception:
         ctx.distinct_case(('neg', case['class'], case.get('shape')))
+        # refused once is refused again: the failed attempt must not have left anything behind that lets the same
+        # string through the second time
+        ctx.evaluated(what='malformed-again')
+        try:
+            f = _parse(case['text'], T, route)
+        except Exception:
+            return
+        ctx.violation('malformed string %r (%s of %r) was refused the first time and accepted as %r the second time%s'
+                      % (case['text'], case['class'], case['from'], f.structure if len(repr(f.structure)) < 200 else '...',
+                         '' if route == 'formula' else ' [route %s]' % route),
+                      malformation=case['class'], route=route, second_attempt=True)
         return
     ctx.violation('malformed string %r (%s of %r) was accepted as %r%s'
                   % (case['text'], case['class'], case['from'], f.structure if len(repr(f.structure)) < 200 else '...',
